@@ -107,15 +107,17 @@ package client
 //@   ensures err == nil ==> dialCount - old(dialCount) <= len(kdcs) && dialCount - old(dialCount) >= 1 && len(r) >= 1
 //@   loop 1 invariant i >= 1 && i <= len(kdcs) + 1 && dialCount - old(dialCount) == i - 1
 //@ func client.dialSendTCP(kdcs, b) (r, err)
-//@   havocs dialCount, tcpShortRead
+//@   havocs dialCount, tcpShortRead, readFullShort
 //@   ensures err != nil ==> dialCount - old(dialCount) == len(kdcs)
 //@   ensures err == nil ==> dialCount - old(dialCount) <= len(kdcs) && dialCount - old(dialCount) >= 1 && len(r) >= 1
 //@   loop 1 invariant i >= 1 && i <= len(kdcs) + 1 && dialCount - old(dialCount) == i - 1
 
 // The whole length header and the whole reply are read (RFC 4120 7.2.2): no short read goes unnoticed.
 //@ func client.sendTCP(conn, b) (r, err)
-//@   havocs tcpShortRead
+//@   havocs tcpShortRead, readFullShort
 //@   ensures err == nil ==> (tcpShortRead <==> old(tcpShortRead)) && len(r) >= 1
+// a reply is returned only if the length header and the body were read completely (io.ReadFull filled both buffers)
+//@   ensures err == nil ==> (readFullShort <==> old(readFullShort))
 //@ func client.sendUDP(conn, b) (r, err)
 //@   ensures err == nil ==> len(r) >= 1
 
@@ -124,7 +126,7 @@ package client
 //@   sets sendUDPCalls := sendUDPCalls + 1
 //@   sets lastUDPErr := err
 //@ func (*client.Client).sendKDCTCP(cl, realm, b) (r, err)
-//@   havocs dialCount, tcpShortRead
+//@   havocs dialCount, tcpShortRead, readFullShort
 //@   sets sendTCPCalls := sendTCPCalls + 1
 //@   sets lastTCPErr := err
 
@@ -136,7 +138,7 @@ package client
 //@ define udp_first(cl, b) := cl.Config.LibDefaults.UDPPreferenceLimit != 1 && len(b) <= cl.Config.LibDefaults.UDPPreferenceLimit
 //@ define tcp_only(cl) := cl.Config.LibDefaults.UDPPreferenceLimit == 1
 //@ func (*client.Client).sendToKDC(cl, b, realm) (rb, err)
-//@   havocs sendTCPCalls, sendUDPCalls, lastTCPErr, lastUDPErr, dialCount, tcpShortRead
+//@   havocs sendTCPCalls, sendUDPCalls, lastTCPErr, lastUDPErr, dialCount, tcpShortRead, readFullShort
 //@   pure
 //@   trusted_frame network I/O only
 //@   ensures tcp_only(cl) ==> sendTCPCalls - old(sendTCPCalls) == 1 && sendUDPCalls == old(sendUDPCalls) && (lastTCPErr == nil <==> err == nil) && (is_krberr(lastTCPErr) ==> same_code(err, lastTCPErr))
